@@ -93,25 +93,65 @@ Proof.
   eapply T_sw_true; eauto.
 Qed.
 
+Lemma consume_bytes_end t f s sl s' : consume_bytes t f s = Ok (sl, s') -> sl_end sl <= tlen t.
+Proof. unfold consume_bytes, slice_back. intros H. bsteps. eapply mk_slice_end; eauto. Qed.
+
+Lemma T_parse_external_literal s1 s2 s2' : sync s1 s2 -> parse_external_literal p s2 = Ok s2' ->
+  (exists s1', parse_external_literal text s1 = Ok s1' /\ sync s1' s2') \/ NG (s_pos s2').
+Proof.
+  intros Hs H. pose proof Hs as (_ & W2 & _). unfold parse_external_literal in *.
+  bsteps.
+  match goal with Hc : consume_bytes _ _ _ = Ok _ |- _ =>
+    pose proof (consume_bytes_end _ _ _ _ _ Hc) as Hle; rewrite (tlen_p text n Hn Hbn) in Hle end.
+  posfacts. cbv zeta. repeat tw2.
+  eapply (T_consume_byte text n Hn Hbn); eassumption.
+Qed.
+
+Lemma T_parse_pubid_literal s1 s2 s2' : sync s1 s2 -> parse_pubid_literal p s2 = Ok s2' ->
+  (exists s1', parse_pubid_literal text s1 = Ok s1' /\ sync s1' s2') \/ NG (s_pos s2').
+Proof.
+  intros Hs H. pose proof Hs as (_ & W2 & _). unfold parse_pubid_literal in *.
+  bsteps. posfacts. cbv zeta. repeat tw2. tifs.
+  eapply (T_advance' text n Hn Hbn); eassumption.
+Qed.
+
+Ltac tw2x :=
+  first [ tw2
+        | match goal with
+          | |- (exists _, ?F = _ /\ _) \/ _ =>
+            match F with
+            | bind (parse_external_literal _ _) _ => tb T_parse_external_literal
+            | bind (parse_pubid_literal _ _) _ => tb T_parse_pubid_literal
+            end
+          end ].
+
 Lemma T_parse_external_id s1 s2 f s2' : sync s1 s2 -> parse_external_id p s2 = Ok (f, s2') ->
   (exists s1', parse_external_id text s1 = Ok (f, s1') /\ sync s1' s2') \/ NG (s_pos s2').
 Proof.
   intros Hs H. pose proof Hs as (_ & W2 & E0 & _). unfold parse_external_id in *.
   destruct (starts_with s2 (b "SYSTEM") || starts_with s2 (b "PUBLIC")) eqn:Et.
   - rewrite (sw_or_true _ _ _ _ Hs Et). cbv zeta in *. rewrite E0.
-    bsteps; posfacts; repeat tw2; tsb; tifs; repeat tw2; try tfin.
+    bsteps; posfacts; repeat tw2x; tsb; tifs; repeat tw2x; try tfin.
   - inversion H; subst. apply orb_false_iff in Et. destruct Et as [E1 E2].
     destruct (T_sw_false _ _ Hn Hbn _ _ (b "SYSTEM") Hs ltac:(pat_ok_tac) E1) as [F1|Hng]; [|right; exact Hng].
     destruct (T_sw_false _ _ Hn Hbn _ _ (b "PUBLIC") Hs ltac:(pat_ok_tac) E2) as [F2|Hng]; [|right; exact Hng].
     rewrite F1, F2. cbn [orb]. left. eauto.
 Qed.
 
+(* the has_space test of the NDATA branch: it held on the prefix run *)
+Ltac tsp :=
+  match goal with
+  | Hs : sync ?s1 ?s2, H : negb (starts_with_space ?s2) = false |- context [starts_with_space ?s1] =>
+    rewrite (T_starts_with_space _ _ Hn Hbn _ _ Hs
+               ltac:(destruct (starts_with_space s2); [reflexivity|discriminate H])); cbn [negb]
+  end.
+
 Lemma T_parse_entity_def s1 s2 g o s2' : sync s1 s2 -> parse_entity_def p s2 g = Ok (o, s2') ->
   (exists s1', parse_entity_def text s1 g = Ok (o, s1') /\ sync s1' s2') \/ NG (s_pos s2').
 Proof.
   intros Hs H. pose proof Hs as (_ & W2 & E0 & _). unfold parse_entity_def in *.
   bsteps; posfacts; cbv zeta; tcb; tifs; cbn [orb]; tifs; repeat tw2;
-  try (tb T_parse_external_id; repeat tw2); try tfin.
+  try (tb T_parse_external_id; try tsp; repeat tw2); try tfin.
 Qed.
 
 (* a cut inside a skipped declaration -- inside a quoted literal or not -- leaves the prefix run
